@@ -494,6 +494,39 @@ func (c *Ctx) connectInertRule(rule string) {
 		r.Add(rule, "after-refusals:"+key, c.InstrPos(in), c.FuncKey(cn), what+" happens only after both refusals", ok, why)
 	})
 	r.Floor(rule, "state-changing steps in the connect routine", n, 4)
+	// method calls on the live socket / buffered I/O inside the connect routine or closures it defers or
+	// calls (e.g. a deferred "close on error" clean-up) must not be able to run on a refusal exit
+	for _, fx := range AnonClosure(cn) {
+		funcInstrs(fx, func(in ssa.Instruction) {
+			cc := callOf(in)
+			if cc == nil || !cc.IsInvoke() {
+				return
+			}
+			fv, _ := loadedField(cc.Value)
+			if fv != a.Sock && fv != a.IO {
+				if !c.derivesFromField(cc.Value, a.Sock) {
+					return
+				}
+			}
+			var anchor ssa.Instruction = in
+			if fx != cn {
+				// where is the closure registered / called in the connect routine?
+				anchor = nil
+				funcInstrs(cn, func(x ssa.Instruction) {
+					if xc := callOf(x); xc != nil {
+						if mc, ok := xc.Value.(*ssa.MakeClosure); ok && mc.Fn == fx {
+							anchor = x
+						}
+					}
+				})
+				if anchor == nil {
+					return
+				}
+			}
+			ok, why := c.connectGuards(anchor)
+			r.Add(rule, "socket-use:"+c.FuncKey(fx)+":"+cc.Method.Name(), c.InstrPos(in), c.FuncKey(fx), "the existing socket is not touched by a Connect that is refused", ok, why)
+		})
+	}
 }
 
 // ---------------- C07 ----------------
